@@ -21,7 +21,7 @@ RULE = ('families: cycles C3..C9, paths, stars, complete graphs, complete bipart
         '1..3) for the random-walk measures; damping d in {.1,.5,.85,.99} and random in (0,1); random positive priors. '
         'findwalks additionally: LARGE graphs n = 11..20 (K_12..K_18, K_{8,8}, circulant, dense/sparse random) compared with '
         'Python-int matrix powers - exact below 2^53, rounded beyond (known finding findwalks:exact53) - and bool / int8 / '
-        'uint8 / int32 / int64 input arrays (known finding findwalks:dtype). pagerank additionally: random digraphs with '
+        'uint8 / int32 / int64 input arrays (ordinary clause findwalks:power since the repair f1bac33). pagerank additionally: random digraphs with '
         'EMPTY COLUMNS (dangling nodes; oracle = the dangling-redistribution equation), priors with zero entries, integer '
         'input arrays, d = 0. mean_first_passage_time additionally: the eigenpair-selection branch (ok / ambiguous truth '
         'value / tolerance) predicted by the extracted model from aux = |eig - 1| on connected AND on disconnected / '
@@ -290,7 +290,8 @@ def run(ctx):
             q = int(r.randint(1, n))
             lines.append('walkcount %s %d' % (enc_mat(A), q)); pend.append(('walkcount', case, (q, np.linalg.matrix_power((A != 0).astype(np.int64), q))))
 
-    # findwalks on non-float64 input arrays: np.dot works in the dtype of the input (bool: logical; small ints: wrap-around)
+    # findwalks on non-float64 input arrays (regression clause for f1bac33: before it np.dot ran in the dtype of the input -
+    # bool: logical products, small ints: wrap-around); ordinary oracle clause + exact comparison with the model
     dt_graphs = [('complete3', complete(3)), ('complete4', complete(4)), ('complete8', complete(8)), ('cube', cube()), ('complete12', complete(12))]
     for t in range(ctx.scale(3, 12)):
         dt_graphs.append(('random', (r.rand(6, 6) < 0.6).astype(int)))
@@ -299,12 +300,19 @@ def run(ctx):
         for dt in (bool, np.int8, np.uint8, np.int32, np.int64):
             case = {'fn': 'findwalks', 'family': 'dtype:' + fam, 'dtype': np.dtype(dt).name, 'A': A.tolist()}
             ctx.case(case, nontrivial=True); ctx.count('findwalks:dtype:' + np.dtype(dt).name)
+            impl = None
             try:
                 Wq, twalk, wlq = call(bct.findwalks, A.astype(dt))
+                impl = (Wq, twalk, wlq)
             except Exception as e:
-                ctx.fail('findwalks:dtype', 'raised %r on a %s array' % (e, np.dtype(dt).name), case); continue
-            bad = next((q for q in range(1, n) if not (to_int_obj(Wq[:, :, q]) == pw[q]).all()), None)
-            ctx.check(bad is None, 'findwalks:dtype', 'Wq[:,:,%s] is not the number of walks of that length when the adjacency matrix is a %s array' % (bad, np.dtype(dt).name), case)
+                ctx.fail('findwalks:raises', 'raised %r on a %s array' % (e, np.dtype(dt).name), case)
+            if impl is not None and ctx.check(Wq.shape == (n, n, n), 'findwalks:shape', 'Wq is not n x n x n', case):
+                bad = next((q for q in range(1, n) if not (to_int_obj(Wq[:, :, q]) == pw[q]).all()), None)
+                ctx.check(bad is None and not np.any(Wq[:, :, 0]), 'findwalks:power',
+                          'Wq[:,:,%s] is not the number of walks of that length when the adjacency matrix is a %s array' % (bad, np.dtype(dt).name), case)
+                ctx.check(twalk == Wq.sum() and np.array_equal(wlq, Wq.sum(axis=(0, 1))), 'findwalks:totals', 'twalk / wlq are not the sums of Wq', case)
+            if dt in (bool, np.int8):
+                lines.append('findwalks ' + enc_mat(A)); pend.append(('findwalks', case, impl))
 
     # findwalks on LARGE graphs against Python-int powers: exact below 2^53, correctly rounded beyond
     for fam, A in large_graphs(r, ctx.thorough):
